@@ -232,20 +232,22 @@ func runC13(c *Ctx, r *Report) {
 				rewritten[fld] = true
 			}
 		}
-		// a helper that applies Modify to every element of the list it is given
-		eachInstr(modify, func(in ssa.Instruction) {
-			hc, ok := in.(*ssa.Call)
-			if !ok {
-				return
+		// helpers of package ast that receive a field's value (or the node itself) and rewrite it with Modify:
+		// a parameter "is rewritten" when a value derived from it is the first argument of a Modify call there
+		paramRewritten := func(callee *ssa.Function, pi int) (bool, map[int]bool) {
+			fields := map[int]bool{}
+			whole := false
+			if pi >= len(callee.Params) {
+				return false, fields
 			}
-			callee := hc.Common().StaticCallee()
-			if callee == nil || callee == modify || !isModuleSSA(callee) || callee.Blocks == nil || len(callee.Params) == 0 || len(hc.Common().Args) == 0 {
-				return
-			}
-			applies := false
+			p := callee.Params[pi]
 			for _, ic := range callsIn(callee, c.Fn("ast", "Modify")) {
 				v := ic.Common().Args[0]
-				for i := 0; i < 6 && v != nil; i++ {
+				for i := 0; i < 10 && v != nil; i++ {
+					if v == ssa.Value(p) {
+						whole = true
+						break
+					}
 					switch x := v.(type) {
 					case *ssa.UnOp:
 						v = x.X
@@ -253,19 +255,56 @@ func runC13(c *Ctx, r *Report) {
 						v = x.X
 					case *ssa.MakeInterface:
 						v = x.X
+					case *ssa.ChangeInterface:
+						v = x.X
+					case *ssa.Lookup:
+						v = x.X
+					case *ssa.Extract:
+						v = x.Tuple
+					case *ssa.Next:
+						v = x.Iter
+					case *ssa.Range:
+						v = x.X
+					case *ssa.FieldAddr:
+						if x.X == ssa.Value(p) {
+							fields[x.Field] = true
+						}
+						v = x.X
+					case *ssa.Phi:
+						if len(x.Edges) > 0 {
+							v = x.Edges[0]
+						} else {
+							v = nil
+						}
 					default:
-						i = 6
+						v = nil
 					}
 				}
-				if v == ssa.Value(callee.Params[0]) {
-					applies = true
-				}
 			}
-			if !applies {
+			return whole, fields
+		}
+		eachInstr(modify, func(in ssa.Instruction) {
+			hc, ok := in.(*ssa.Call)
+			if !ok {
 				return
 			}
-			if fld := fromField(hc.Common().Args[0], 0); fld >= 0 {
-				rewritten[fld] = true
+			callee := hc.Common().StaticCallee()
+			if callee == nil || callee == modify || !isModuleSSA(callee) || callee.Blocks == nil || callee.Pkg == nil || shortPkg(callee.Pkg.Pkg) != "ast" {
+				return
+			}
+			for i, arg := range hc.Common().Args {
+				whole, fields := paramRewritten(callee, i)
+				if arg == a.v {
+					// the node itself is handed over: the fields the helper reads and rewrites
+					for f := range fields {
+						read[f] = true
+						rewritten[f] = true
+					}
+					continue
+				}
+				if fld := fromField(arg, 0); fld >= 0 && (whole || len(fields) > 0) {
+					rewritten[fld] = true
+				}
 			}
 		})
 		for f := 0; f < st.NumFields(); f++ {
@@ -314,6 +353,51 @@ func runC13(c *Ctx, r *Report) {
 					}
 					if isCallTo(call, c.Fn("ast", "Modify")) && fromField(call.Common().Args[0], 0) == f {
 						passed = true
+					}
+					// or a helper of package ast that is handed the field's value and rewrites it on every path
+					if callee := call.Common().StaticCallee(); callee != nil && callee != modify && isModuleSSA(callee) && callee.Blocks != nil && callee.Pkg != nil && shortPkg(callee.Pkg.Pkg) == "ast" {
+						for i, arg := range call.Common().Args {
+							if fromField(arg, 0) != f || i >= len(callee.Params) {
+								continue
+							}
+							p := callee.Params[i]
+							rewrites := func(x ssa.Instruction) bool {
+								ic, ok := x.(*ssa.Call)
+								if !ok || !isCallTo(ic, c.Fn("ast", "Modify")) {
+									return false
+								}
+								v := ic.Common().Args[0]
+								for k := 0; k < 4; k++ {
+									if v == ssa.Value(p) {
+										return true
+									}
+									switch y := v.(type) {
+									case *ssa.MakeInterface:
+										v = y.X
+									case *ssa.ChangeInterface:
+										v = y.X
+									default:
+										k = 4
+									}
+								}
+								return false
+							}
+							// every return of the helper that reports success (last result not the constant false) passed the call
+							if mustPassFromEntry(callee, rewrites, func(x ssa.Instruction) bool {
+								ret, ok := x.(*ssa.Return)
+								if !ok {
+									return false
+								}
+								if n := len(ret.Results); n > 0 {
+									if k, ok := ret.Results[n-1].(*ssa.Const); ok && k.Value != nil && k.Value.ExactString() == "false" {
+										return false
+									}
+								}
+								return true
+							}) == nil {
+								passed = true
+							}
+						}
 					}
 					if call.Common().Value == ssa.Value(modify.Params[1]) && !passed {
 						bad = in
